@@ -49,11 +49,11 @@ EXTENDS Integers, Sequences, FiniteSets, TLC
 CONSTANT Variant     \* "ref" | "stop_keeps_sub" | "stuck_parent" | "reverse_scan" | "handler_ignored"
                      \* | "enter_first" | "exit_twice" | "parent_first" | "no_reent_guard"
 CONSTANT StopOrders  \* subset of {0,1}: 0 = stop() stops the sub-machine before the exit action, 1 = after
-CONSTANT ProgTab     \* the programs under consideration: a sequence of records with a field p; a behaviour works on ProgTab[pi].p
 
-VARIABLES pi, st, lastCall, lastOut, lastRet, viol
-vars == <<pi, st, lastCall, lastOut, lastRet, viol>>
-prog == ProgTab[pi].p
+VARIABLES prog,      \* the program (never changes during a behaviour)
+          pi,        \* its index in the family / trace (identifies prog in VIEWs)
+          st, lastCall, lastOut, lastRet, viol
+vars == <<prog, pi, st, lastCall, lastOut, lastRet, viol>>
 
 MinOf(S) == CHOOSE x \in S : \A y \in S : x <= y
 B2I(b) == IF b THEN 1 ELSE 0
@@ -309,7 +309,7 @@ DoCall(c) == \E so \in StopOrders : \E x \in {StepOf(st, c, so)} :
      /\ lastRet' = x.ret
      /\ lastCall' = c
      /\ viol' = x.viol
-     /\ UNCHANGED pi
+     /\ UNCHANGED <<prog, pi>>
 
 Start   == DoCall(<<1, 0>>)
 Stop    == DoCall(<<2, 0>>)
@@ -317,7 +317,7 @@ Restart == DoCall(<<3, 0>>)
 Run     == \E ev \in 1..prog.ne : DoCall(<<4, ev>>)
 Next == Start \/ Stop \/ Restart \/ Run
 
-InitWith(i) == /\ pi = i /\ st = InitSt(ProgTab[i].p) /\ lastCall = <<0, 0>> /\ lastOut = <<>>
+InitWith(i, P) == /\ pi = i /\ prog = P /\ st = InitSt(P) /\ lastCall = <<0, 0>> /\ lastOut = <<>>
                /\ lastRet = [ret |-> FALSE, open |-> FALSE] /\ viol = {}
 
 (* binding helpers (Trace_Hfsm): the observable part of a semantic trace; what the machines report after a call.     *)
